@@ -126,8 +126,17 @@ def show_val(v):
     return "@D%d-%d-%d" % (y, m, d)
 
 
+def canon_marks(st):
+    out = []
+    for k, v in st:
+        if k == "object_marking_refs" and isinstance(v.get("j"), list) and all(isinstance(x, str) for x in v["j"]):
+            v = {"j": sorted(v["j"])}
+        out.append([k, v])
+    return out
+
+
 def view(carrier, st):
-    return sorted(st, key=lambda kv: kv[0]) if carrier == "object" else st
+    return canon_marks(sorted(st, key=lambda kv: kv[0]) if carrier == "object" else st)
 
 
 def show_state(st):
@@ -162,6 +171,8 @@ def serialized_modified(carrier, ver, x):
     """The `modified` text the new version serializes to at its spec version, by the library's own
     serialization (an object directly; a dict through parse at its version when the library can)."""
     try:
+        if "modified" not in x:
+            return None
         if carrier == "object":
             return json.loads(x.serialize()).get("modified")
         o = stix2.parse(copy.deepcopy(x), allow_custom=True, version=ver)
@@ -185,14 +196,16 @@ def apply(carrier, cur, op):
         if carrier == "object":
             return cur.revoke()
         return stix2.versioning.revoke(cur)
+    # objects of classes with the markings mix-in through their methods, everything else through the functions
+    meth = carrier == "object" and hasattr(cur, "add_markings")
     if k == "add_mark":
-        return cur.add_markings(op["ms"]) if carrier == "object" else stix2.markings.add_markings(cur, op["ms"], None)
+        return cur.add_markings(op["ms"]) if meth else stix2.markings.add_markings(cur, op["ms"], None)
     if k == "remove_mark":
-        return cur.remove_markings(op["ms"]) if carrier == "object" else stix2.markings.remove_markings(cur, op["ms"], None)
+        return cur.remove_markings(op["ms"]) if meth else stix2.markings.remove_markings(cur, op["ms"], None)
     if k == "clear_mark":
-        return cur.clear_markings() if carrier == "object" else stix2.markings.clear_markings(cur, None)
+        return cur.clear_markings() if meth else stix2.markings.clear_markings(cur, None)
     if k == "set_mark":
-        return cur.set_markings(op["ms"]) if carrier == "object" else stix2.markings.set_markings(cur, op["ms"], None)
+        return cur.set_markings(op["ms"]) if meth else stix2.markings.set_markings(cur, op["ms"], None)
     raise ValueError("bad op")
 
 
